@@ -39,9 +39,9 @@ import (
 type c14Dec struct {
 	Name string
 	Type byte
-	New  func() pb.Message                  // nil for ReplicationResponse
-	Call func([]byte) (pb.Message, error)   // protobuf decoders
-	Enc  func(pb.Message) ([]byte, error)   // matching Marshal* (nil if none)
+	New  func() pb.Message                // nil for ReplicationResponse
+	Call func([]byte) (pb.Message, error) // protobuf decoders
+	Enc  func(pb.Message) ([]byte, error) // matching Marshal* (nil if none)
 }
 
 func c14Decoders() []c14Dec {
@@ -64,10 +64,14 @@ func c14Decoders() []c14Dec {
 			func(m pb.Message) ([]byte, error) { return MarshalRaftJoinResponse(m.(*RaftJoinResponse)) }},
 		{"LeaderEpochOffsetRequest", 6, func() pb.Message { return new(LeaderEpochOffsetRequest) },
 			func(b []byte) (pb.Message, error) { return UnmarshalLeaderEpochOffsetRequest(b) },
-			func(m pb.Message) ([]byte, error) { return MarshalLeaderEpochOffsetRequest(m.(*LeaderEpochOffsetRequest)) }},
+			func(m pb.Message) ([]byte, error) {
+				return MarshalLeaderEpochOffsetRequest(m.(*LeaderEpochOffsetRequest))
+			}},
 		{"LeaderEpochOffsetResponse", 7, func() pb.Message { return new(LeaderEpochOffsetResponse) },
 			func(b []byte) (pb.Message, error) { return UnmarshalLeaderEpochOffsetResponse(b) },
-			func(m pb.Message) ([]byte, error) { return MarshalLeaderEpochOffsetResponse(m.(*LeaderEpochOffsetResponse)) }},
+			func(m pb.Message) ([]byte, error) {
+				return MarshalLeaderEpochOffsetResponse(m.(*LeaderEpochOffsetResponse))
+			}},
 		{"PropagatedRequest", 8, func() pb.Message { return new(PropagatedRequest) },
 			func(b []byte) (pb.Message, error) { return UnmarshalPropagatedRequest(b) },
 			func(m pb.Message) ([]byte, error) { return MarshalPropagatedRequest(m.(*PropagatedRequest)) }},
@@ -85,7 +89,9 @@ func c14Decoders() []c14Dec {
 			func(m pb.Message) ([]byte, error) { return MarshalPartitionStatusRequest(m.(*PartitionStatusRequest)) }},
 		{"PartitionStatusResponse", 13, func() pb.Message { return new(PartitionStatusResponse) },
 			func(b []byte) (pb.Message, error) { return UnmarshalPartitionStatusResponse(b) },
-			func(m pb.Message) ([]byte, error) { return MarshalPartitionStatusResponse(m.(*PartitionStatusResponse)) }},
+			func(m pb.Message) ([]byte, error) {
+				return MarshalPartitionStatusResponse(m.(*PartitionStatusResponse))
+			}},
 		{"PartitionNotification", 14, func() pb.Message { return new(PartitionNotification) },
 			func(b []byte) (pb.Message, error) { return UnmarshalPartitionNotification(b) },
 			func(m pb.Message) ([]byte, error) { return MarshalPartitionNotification(m.(*PartitionNotification)) }},
@@ -531,7 +537,7 @@ func c14LastLogged(path string) (idx int, line string) {
 	return
 }
 
-var c14CrashFrameRe = regexp.MustCompile(`(?m)^(github\.com/liftbridge-io/liftbridge/server\S*?)\(.*\)\n\t(\S+):\d+`)
+var c14CrashFrameRe = regexp.MustCompile(`(?m)^(github\.com/liftbridge-io/liftbridge/server[^\n]*)\([^\n]*\)\n\t(\S+):\d+`)
 
 // c14CrashInfo extracts the first line and the innermost repository frame of a
 // crash from a child's output.
